@@ -1,29 +1,36 @@
 /* Wrapper TU for orc/orcfunctions.c (property C07): the library's own orcc-generated helpers orc_memcpy / orc_memset,
  * C-level paths only: the Orc-free DISABLE_ORC bodies and the _backup_ functions (ORC_CODE=backup). */
 #include "stubs/prelude.h"
+/* SMALL_N: bounded companions without loop contracts (n <= 3, loops unwound): they keep deciding the property when a
+ * rewritten loop no longer matches the loop-contract anchor (seed C07_c07b) */
+#ifdef SMALL_N
+#define NMAXF 3
+#else
+#define NMAXF 1000000
+#endif
 #include "/repo/orc/orcfunctions.c"
 unsigned long __gk;   /* ghost byte index */
 
 #ifdef DISABLE_ORC
 /* memcpy: every byte of [0,n) copied, nothing else written, any alignment (byte arrays at arbitrary offsets) */
 void orc_memcpy (void * ORC_RESTRICT d1, const void * ORC_RESTRICT s1, int n)
-__CPROVER_requires(n >= 0 && n <= 1000000 && __CPROVER_is_fresh(d1, n) && __CPROVER_is_fresh(s1, n))
+__CPROVER_requires(n >= 0 && n <= NMAXF && __CPROVER_is_fresh(d1, n) && __CPROVER_is_fresh(s1, n))
 __CPROVER_assigns(__CPROVER_object_upto(d1, (unsigned long)n))
 __CPROVER_ensures(__gk < (unsigned long)n ==> ((unsigned char *)d1)[__gk] == ((const unsigned char *)s1)[__gk]);
 void orc_memset (void * ORC_RESTRICT d1, int p1, int n)
-__CPROVER_requires(n >= 0 && n <= 1000000 && __CPROVER_is_fresh(d1, n))
+__CPROVER_requires(n >= 0 && n <= NMAXF && __CPROVER_is_fresh(d1, n))
 __CPROVER_assigns(__CPROVER_object_upto(d1, (unsigned long)n))
 __CPROVER_ensures(__gk < (unsigned long)n ==> ((unsigned char *)d1)[__gk] == (unsigned char)p1);
 void h_memcpy(void) { __gk = nondet_ulong(); orc_memcpy(nondet_ptr(), nondet_ptr(), nondet_int()); REACH(); }
 void h_memset(void) { __gk = nondet_ulong(); orc_memset(nondet_ptr(), nondet_int(), nondet_int()); REACH(); }
 #else
 static void _backup_orc_memcpy (OrcExecutor * ORC_RESTRICT ex)
-__CPROVER_requires(__CPROVER_is_fresh(ex, sizeof(*ex)) && ex->n >= 0 && ex->n <= 1000000)
+__CPROVER_requires(__CPROVER_is_fresh(ex, sizeof(*ex)) && ex->n >= 0 && ex->n <= NMAXF)
 __CPROVER_requires(__CPROVER_is_fresh(ex->arrays[ORC_VAR_D1], ex->n) && __CPROVER_is_fresh(ex->arrays[ORC_VAR_S1], ex->n))
 __CPROVER_assigns(__CPROVER_object_upto(ex->arrays[ORC_VAR_D1], (unsigned long)ex->n))
 __CPROVER_ensures(__gk < (unsigned long)ex->n ==> ((unsigned char *)ex->arrays[ORC_VAR_D1])[__gk] == ((unsigned char *)ex->arrays[ORC_VAR_S1])[__gk]);
 static void _backup_orc_memset (OrcExecutor * ORC_RESTRICT ex)
-__CPROVER_requires(__CPROVER_is_fresh(ex, sizeof(*ex)) && ex->n >= 0 && ex->n <= 1000000)
+__CPROVER_requires(__CPROVER_is_fresh(ex, sizeof(*ex)) && ex->n >= 0 && ex->n <= NMAXF)
 __CPROVER_requires(__CPROVER_is_fresh(ex->arrays[ORC_VAR_D1], ex->n))
 __CPROVER_assigns(__CPROVER_object_upto(ex->arrays[ORC_VAR_D1], (unsigned long)ex->n))
 __CPROVER_ensures(__gk < (unsigned long)ex->n ==> ((unsigned char *)ex->arrays[ORC_VAR_D1])[__gk] == (unsigned char)ex->params[ORC_VAR_P1]);
